@@ -22,6 +22,7 @@ EXTENDS CacheContract
 
 CONSTANTS Loops, Callers, LoopOf, MaxInv, MaxRetry,
           OwnMarkerOnly, ForeignCancelRetry, LifeCycles, Cancels, Failures, Timeouts,
+          Resumes,       \* BOOLEAN: a loop that stopped with calls pending may be run again (outside C01's histories)
           Evictions      \* BOOLEAN: the caller-supplied mapping may drop the entry at any moment (bounded LRU, TTL, del)
 
 None == "none"          \* no loop
@@ -309,6 +310,12 @@ LoopStop(l) ==       \* run_until_complete(main) returns (possibly with calls pe
     /\ Emit([e |-> "LoopStopped", loop |-> l])
     /\ UNCHANGED <<cur, pc, cache, marker, lock, evset, nev, loc, finv, fout, proxy, hit, retries>>
 
+LoopResume(l) ==     \* the thread comes back to its loop (run_until_complete(something_else)): pending calls go on
+    /\ Resumes /\ lstate[l] = "stopped"
+    /\ lstate' = [lstate EXCEPT ![l] = "run"]
+    /\ Emit([e |-> "LoopRunning", loop |-> l])
+    /\ UNCHANGED <<cur, pc, cache, marker, lock, evset, nev, loc, finv, fout, proxy, hit, retries>>
+
 LoopShutdown(l) ==   \* asyncio.run's clean-up, first half: every leftover task of the loop is cancelled
     /\ lstate[l] = "stopped"
     /\ lstate' = [lstate EXCEPT ![l] = "cancelled"]
@@ -367,7 +374,7 @@ Evict ==         \* the mapping drops the entry (another key pushes it out, it e
 
 Next == \/ \E c \in Callers : CallerStep(c)
         \/ Evict
-        \/ \E l \in Loops : LoopStop(l) \/ LoopShutdown(l) \/ LoopDrainStart(l) \/ LoopDrainDone(l) \/ LoopClose(l)
+        \/ \E l \in Loops : LoopStop(l) \/ LoopResume(l) \/ LoopShutdown(l) \/ LoopDrainStart(l) \/ LoopDrainDone(l) \/ LoopClose(l)
         \/ Done
 
 Spec == Init /\ [][Next]_vars
